@@ -147,6 +147,42 @@ def run(ctx):
     # ---- CubaLIF reference: exactly the forward-Euler update ------------------------------------
     import nir
     cuba = load_cuba()
+    # dyadic parameters: every quantity is exact in float64, so the membrane can land *exactly* on the threshold
+    for _ in range(ctx.n(80)):
+        nn = rng.randrange(1, 4)
+        dy = lambda: rng.choice([0.25, 0.5, 1.0, 2.0])
+        tau_s = np.array([dy() for _ in range(nn)]); tau_m = np.array([dy() for _ in range(nn)])
+        r = np.array([rng.choice([0.5, 1.0, 2.0]) for _ in range(nn)]); vl = np.array([rng.choice([0.0, 0.25]) for _ in range(nn)])
+        w = np.array([rng.choice([1.0, 2.0, 4.0]) for _ in range(nn)])
+        dt = rng.choice([0.25, 0.5])
+        xs = [np.array([float(rng.randrange(0, 3)) for _ in range(nn)]) for _ in range(6)]
+        # pass 1 (no spikes possible: huge threshold) to find a voltage the membrane really takes
+        I = np.zeros(nn); v = np.zeros(nn); seen = []
+        for x in xs:
+            I, v = I + dt * (-I + w * x) / tau_s, v + dt * ((vl - v) + r * I) / tau_m
+            seen.append(v.copy())
+        j = rng.randrange(1, len(xs))
+        thr = np.where(seen[j] > 0, seen[j], 1.0)
+        node = nir.CubaLIF(tau_syn=tau_s, tau_mem=tau_m, r=r, v_leak=vl, v_threshold=thr, w_in=w)
+        m = cuba.CubaLIFImplementation(dt, node)
+        I = np.zeros(nn); v = np.zeros(nn)
+        case = {"op": "cuba_dyadic", "n": nn, "dt": dt, "thr": thr.tolist(), "xs": [x.tolist() for x in xs],
+                "tau_syn": tau_s.tolist(), "tau_mem": tau_m.tolist(), "r": r.tolist(), "v_leak": vl.tolist(), "w_in": w.tolist()}
+        ctx.case(case); ctx.count("cuba_dyadic_runs")
+        for step, x in enumerate(xs):
+            z, vo, Io = m.forward(x)
+            I_new = I + dt * (-I + w * x) / tau_s
+            v_new = v + dt * ((vl - v) + r * I) / tau_m
+            z_want = v_new > thr
+            if np.any(v_new == thr):
+                ctx.count("cuba_exact_threshold_hits")
+            v_new = np.where(z_want, v_new - thr, v_new)
+            if not (np.array_equal(Io, I_new) and np.array_equal(vo, v_new) and np.array_equal(np.asarray(z), z_want)):
+                ctx.violate(case, "CubaLIF reference step differs from the documented update (strict threshold, subtractive reset) "
+                            "on exactly representable parameters", {"site": "CubaLIFImplementation.forward", "what": "dyadic"},
+                            observed={"step": step, "z": np.asarray(z).tolist(), "want": z_want.tolist()})
+                break
+            I, v = np.array(Io, dtype=float), np.array(vo, dtype=float)
     for _ in range(ctx.n(150)):
         nn = rng.randrange(1, 6)
         g = np.random.default_rng(rng.randrange(2 ** 32))
